@@ -110,7 +110,9 @@ AuxKinds == {"q-all", "q-inter", "q-v", "q-s", "q-null", "q-noxa", "view", "view
              "viewxend", "viewiend", "viewfrom", "viewxenddesc", "viewfromdesc"}
 RowOf(r) == [id |-> r.id, body |-> B(r.body), xa |-> XaOf(r.xa), vals |-> r.vals]
 RowsOf(s) == IF Len(s) = 0 THEN <<>> ELSE [i \in 1..Len(s) |-> RowOf(s[i])]
-TokRank(t) == CASE t = "-" -> 0 [] t = "J1" -> 1 [] t = "J2" -> 2 [] t = "J3" -> 3 [] t = "x1" -> 1 [] t = "x2" -> 2 [] OTHER -> 9
+(* JSON collation of the tokens that occur as emitted key components: null, then strings (letters compared without case first) *)
+TokRank(t) == CASE t = "-" -> 0 [] t = "J1" -> 1 [] t = "J2" -> 2 [] t = "J3" -> 3 [] t = "J4" -> 4 [] t = "JB" -> 5
+                [] t = "s1" -> 6 [] t = "s2" -> 7 [] t = "x1" -> 1 [] t = "x2" -> 2 [] OTHER -> 9
 KeySeq(S) == IF S = {} THEN <<>> ELSE IF S = {"k1"} THEN <<"k1">> ELSE IF S = {"k2"} THEN <<"k2">> ELSE <<"k1", "k2">>
 QRow(k, d) == [id |-> k, body |-> d.body, xa |-> d.xa, vals |-> <<>>]
 IdRow(k) == [id |-> k, body |-> NoBody, xa |-> NoXa, vals |-> <<>>]
